@@ -5,6 +5,7 @@
 -/
 import LyonVerif.Drive.Common
 import LyonVerif.Model.Tess.Skeleton
+import LyonVerif.Lemmas.C04Spec
 
 namespace Lyon.Drive.C04
 open Lyon Lyon.Drive Lyon.Tess
@@ -137,24 +138,25 @@ def initBuffers (sp : SinkSpec) (n : Nat) : Buffers :=
 /-- One fault position against a `BuffersBuilder` sink: `run` gets the sink and its initial state and
 returns the printed prediction and the final builder state. -/
 def withBB (sp : SinkSpec) (cfg : IdxCfg) (k : Nat)
-    (run : (S : Sink (BB × Nat)) → (BB × Nat) → String × (BB × Nat)) : String :=
+    (run : (S : Sink (BB × Nat)) → (BB × Nat) → String × String × (BB × Nat)) : String :=
   match initFor sp cfg.max k with
   | none => "skip"
   | some n =>
     let bb := (BB.new (initBuffers sp n) cfg).withVertexOffset sp.off
     let S0 : Sink BB := if sp.inv then bbSink.invert else bbSink
     let S := S0.refuseAt (if sp.overflow then 0 else k) sp.err
-    let (txt, fin) := run S (bb, 0)
-    txt ++ " " ++ fBuffers fin.1.buf
+    let (txt, wf, fin) := run S (bb, 0)
+    txt ++ " " ++ fBuffers fin.1.buf ++ " wf " ++ wf
 
 def withNoOut (sp : SinkSpec) (k : Nat)
-    (run : (S : Sink (NoOut × Nat)) → (NoOut × Nat) → String × (NoOut × Nat)) : String :=
+    (run : (S : Sink (NoOut × Nat)) → (NoOut × Nat) → String × String × (NoOut × Nat)) : String :=
   let S := noOutSink.refuseAt k sp.err
-  (run S (⟨0⟩, 0)).1 ++ " nobuf"
+  let r := run S (⟨0⟩, 0)
+  r.1 ++ " nobuf wf " ++ r.2.1
 
 /-- All listed fault positions. `run` is generic in the sink. -/
 def enumerate (sp : SinkSpec) (ks : List Nat)
-    (run : {σ : Type} → (S : Sink σ) → σ → String × σ) : String :=
+    (run : {σ : Type} → (S : Sink σ) → σ → String × String × σ) : String :=
   let maxTok := match cfgOf sp.ty with
     | some c => toString c.max
     | none => "4294967295"
@@ -183,7 +185,7 @@ def fill (v : Array String) : String :=
   if core == "corepanic" then "refpanic" else
   enumerate sp ks fun S s =>
     let o := tessellateImpl S (tol == "tolok") script coreErr s
-    (fTrace o.result o.trace, o.st)
+    (fTrace o.result o.trace, fb (Lyon.C04.protocolB o.trace o.result), o.st)
 
 def stroke (v : Array String) : String :=
   let (sp, c) := readSink ⟨v, 0⟩
@@ -200,14 +202,10 @@ def stroke (v : Array String) : String :=
   let (ks, _) := readKs c
   if refr == "refpanic" then "refpanic" else
   enumerate sp ks fun S s =>
-    let o := strokeRun S evs [] s
+    let o := strokeRun S evs s
     let pulled := if mode == "iter" then o.pulled else if mode == "driven" then evs.length else 0
-    let pre := o.trace.dropLast
-    let term := match o.trace.getLast? with
-      | some .endG => "E"
-      | some .abort => "A"
-      | _ => "none"
-    (unwords ([fRes o.result, "pulled", toString pulled, "pre"] ++ pre.map fCall ++ ["term", term]), o.st)
+    (unwords ([fRes o.result, "pulled", toString pulled, "trace"] ++ o.trace.map fCall),
+      fb (Lyon.C04.protocolB o.trace o.result), o.st)
 
 def shape (v : Array String) : String :=
   let (sp, c) := readSink ⟨v, 0⟩
@@ -216,14 +214,14 @@ def shape (v : Array String) : String :=
     let (ks, _) := readKs c
     enumerate sp ks fun S s =>
       let o := shapeRun S rectScript s
-      (fTrace o.result o.trace, o.st)
+      (fTrace o.result o.trace, fb (Lyon.C04.protocolB o.trace o.result), o.st)
   else
     let (rz, c) := c.nat
     let (depth, c) := c.nat
     let (ks, _) := readKs c
     enumerate sp ks fun S s =>
       let o := circleRun S (rz == 1) depth s
-      (fTrace o.result o.trace, o.st)
+      (fTrace o.result o.trace, fb (Lyon.C04.protocolB o.trace o.result), o.st)
 
 def readOps : Nat → Nat → Cur → List Op × Cur
   | 0, _, c => ([], c)
